@@ -136,7 +136,7 @@ def main(tier, seed):
     narr = {g: generic_loading(parr[g]) for g in grids}
 
     # ---- 2a. manual limits and method defaults on the raw functions
-    stride = 1 if thorough else 3
+    stride = 1 if thorough else 6
     recs, meta = [], []
     idx = 0
     for m in ("bet", "lang", "da"):
@@ -157,7 +157,7 @@ def main(tier, seed):
                 run.count((m, g, lo, hi), nontrivial=len(g) >= 3)
     # ---- 2b. Rouquerol shapes
     site, fn, pick = sites["bet"]
-    rstride = 1 if thorough else 3
+    rstride = 1 if thorough else 4
     for g, rs in roq:
         p = numpy.array([k / 100.0 for k in g])
         for r in rs:
@@ -179,7 +179,6 @@ def main(tier, seed):
     # ---- 2c. isotherm entry points (p_limit_indices / p_limits of the result dictionaries)
     isites = iso_sites()
     recs, meta = [], []
-    iso_cache = {}
     pairs_all = [(lo, hi) for lo in los for hi in his]
     npairs = 40 if thorough else 5
     for g in grids:
@@ -220,7 +219,7 @@ def main(tier, seed):
             rule="selection: every strictly increasing grid of 1..7 pressures over 0.1..0.7 x every pair of limits over {None, 0, 0.05, .., 0.8} "
                  "(and no limits: method defaults) for BET / Langmuir / DA, every Rouquerol shape (up/down patterns of n(1-p)) on grids of 3..7 of 10 "
                  "pressures spanning 0.01..0.9, every (grid, lo, hi) for t-plot / alpha-s sections; quick tier: grids of <= 6 pressures over 0.1..0.6, limits up to 0.7; "
-                 + ("all rows" if thorough else "a seeded 1/3 slice")
+                 + ("all rows" if thorough else "a seeded 1/6 (Rouquerol 1/4) slice")
                  + " on the *_raw functions, a seeded sample on the isotherm entry points; recovery: generating parameters x grids x limits enumerated by "
                  "spec/LinearisedOracle; non-trivial = grid of >= 3 points (a fit is possible); distinct = distinct (entry point, grid, limits / shape / parameter vector)")
     run.assume("math.log / exp and the library's own thickness curves and DA model class generate the t-plot and DR/DA data (inputs, not oracles)")
@@ -237,7 +236,7 @@ def sections(run, rng, thorough, grids, parr, seed, MAXL):
     from pygaps.characterisation.alphas_plots import alpha_s_raw, alpha_s
     tmodel = TableModel({k: k / 2.0 for k in range(1, 41)}, SCALE)   # thickness = 10 p (exact halves)
     lims = list(range(0, MAXL + 1))
-    stride = 1 if thorough else 4
+    stride = 1 if thorough else 6
     recs, meta = [], []
     idx = 0
     skipped = 0
@@ -246,7 +245,7 @@ def sections(run, rng, thorough, grids, parr, seed, MAXL):
         nonlocal skipped
         try:
             results = fn()
-        except Exception as e:  # noqa: BLE001
+        except Exception:  # noqa: BLE001
             # fewer than two selected points cannot be regressed; the property says nothing about that
             skipped += 1
             return
@@ -326,7 +325,7 @@ class Recovery:
                 if not math.isfinite(v):
                     run.violation({"site": site, "part": "recovery", "config": cfg, "output": name, "wrong": "non-finite output"}, {"query": q, "obs": obs})
                     continue
-                o.append([name, dec_enc(v), dec_enc(scales.get(name, 0.0))])
+                o.append([name, dec_enc(v), dec_enc(scales.get(name, 0.0)), TOLK if tols.get(name, TOL) <= 10.0 ** (-TOLK) else 3])
             judge.append(dict(q, k="judge", tolk=TOLK, obs=o))
         answers = tlc.oracle("LinearisedOracle", judge, timeout=600, chunk=4000) if judge else []
         worst = {}
@@ -346,8 +345,7 @@ class Recovery:
                 err = abs(v - e) / (max(abs(v), abs(e)) + sc) if (v != e) else 0.0
                 wkey = (site + ("[" + cfg + ", m=" + str(frac(q["ex"])) + "]" if q["m"] == "da" else ""), name)
                 worst[wkey] = max(worst.get(wkey, 0.0), err)
-                in_spec = name in bad_spec and tol <= 10.0 ** (-TOLK)
-                if err > tol or in_spec:
+                if err > tol or name in bad_spec:
                     ratio = v / e if e else float("inf")
                     sig = {"site": site, "part": "recovery", "config": cfg, "output": name, "wrong": "does not return the generating value"}
                     if q["m"] == "da":
@@ -369,8 +367,6 @@ def recovery(run, rng, thorough, seed):
     from pygaps.characterisation.models_thickness import get_thickness_model
     from pygaps.modelling.da import DA
     from pygaps.modelling.dr import DR
-    from scipy import constants
-
     sp = tlc.oracle("LinearisedOracle", [{"k": "space"}])[0]["expect"]
     NM = sorted(frac(x) for x in sp["nm"])
     CS = sorted(sp["c"])
@@ -391,7 +387,7 @@ def recovery(run, rng, thorough, seed):
             stored_adsorbate(name, **props)
     MR = [(Fraction(9987, 250), Fraction(7, 5), "verif_ads_a"), (Fraction(30), Fraction(4, 5), "verif_ads_b")]
     rec = Recovery(run)
-    keep = (lambda i: True) if thorough else (lambda i: (i + seed) % 4 == 0)
+    keep = (lambda i: True) if thorough else (lambda i: (i + seed) % 6 == 0)
 
     def manual_limits(ps):
         return (float(ps[0] + ps[1]) / 2, float(ps[-2] + ps[-1]) / 2)
@@ -407,7 +403,32 @@ def recovery(run, rng, thorough, seed):
         i += 1
         if keep(i):
             scen.append({"k": "gen", "m": "lang", "nm": renc(nm), "kk": renc(kk), "sigma": renc(sg), "ps": [renc(p) for p in g]})
-    gens = tlc.oracle("LinearisedOracle", scen, timeout=600, chunk=500)
+    # (scenarios of the alpha-s parts are built here as well: one TLC invocation serves all of them)
+    refgrid = [Fraction(k, 20) for k in range(1, 17)]                 # contains the reducing pressure 0.4
+    pr = numpy.array([float(x) for x in refgrid])
+    refs = [Fraction(k * k + 3 * k, 7) for k in range(1, 17)]         # any increasing reference loading
+    scen_as = []
+    i = 0
+    for s, ic, (mm, rho, adsname), aref, apt in itertools.product(SL, IC, MR, (Fraction(100), Fraction(1234, 10)), (Fraction(5, 2), Fraction(1, 3))):
+        i += 1
+        if keep(i):
+            scen_as.append({"k": "gen", "m": "as", "s": renc(s), "i": renc(ic), "aref": renc(aref), "apt": renc(apt), "mm": renc(mm), "rho": renc(rho),
+                         "ps": [renc(x) for x in refs]})
+    p04 = Fraction(2, 5)
+    scen_iso = []
+    i = 0
+    for nm, c, sg in itertools.product(NM[1:], (9, 100, 400), SIG):
+        i += 1
+        if not keep(i):
+            continue
+        adsname, props = ADS[sg]
+        base = {"nm": renc(nm), "c": c, "sigma": renc(sg), "pr": renc(p04)}
+        scen_iso.append(dict(base, k="gen", m="self", ps=[renc(x) for x in refgrid]))
+        s, ic = SL[i % len(SL)], IC[(i // 2) % len(IC)]
+        mm, rho = (props["molar_mass"], props["liquid_density"]) if props else (Fraction(1), Fraction(1))
+        scen_iso.append(dict(base, k="gen", m="asiso", s=renc(s), i=renc(ic), mm=renc(mm), rho=renc(rho), ps=[renc(x) for x in refgrid]))
+    allgens = tlc.oracle("LinearisedOracle", scen + scen_as + scen_iso, timeout=600, chunk=700)
+    gens, gens_as, gens_iso = allgens[:len(scen)], allgens[len(scen):len(scen) + len(scen_as)], allgens[len(scen) + len(scen_as):]
     for q, a in zip(scen, gens):
         ps = [frac(x) for x in q["ps"]]
         p = numpy.array([float(x) for x in ps])
@@ -478,17 +499,7 @@ def recovery(run, rng, thorough, seed):
 
     _t("  tplot")
     # ---------------- alpha-s on raw arrays: n = s * ref / ref(0.4) + i
-    refgrid = [Fraction(k, 20) for k in range(1, 17)]                 # contains the reducing pressure 0.4
-    pr = numpy.array([float(x) for x in refgrid])
-    refs = [Fraction(k * k + 3 * k, 7) for k in range(1, 17)]         # any increasing reference loading
-    scen = []
-    i = 0
-    for s, ic, (mm, rho, adsname), aref, apt in itertools.product(SL, IC, MR, (Fraction(100), Fraction(1234, 10)), (Fraction(5, 2), Fraction(1, 3))):
-        i += 1
-        if keep(i):
-            scen.append({"k": "gen", "m": "as", "s": renc(s), "i": renc(ic), "aref": renc(aref), "apt": renc(apt), "mm": renc(mm), "rho": renc(rho),
-                         "ps": [renc(x) for x in refs]})
-    gens = tlc.oracle("LinearisedOracle", scen, timeout=300) if scen else []
+    scen, gens = scen_as, gens_as
     rl = numpy.array([float(x) for x in refs])
     for q, a in zip(scen, gens):
         q0 = {k: v for k, v in q.items() if k not in ("ps", "k")}
@@ -509,20 +520,7 @@ def recovery(run, rng, thorough, seed):
 
     # ---------------- alpha_s on isotherms: the reference is an exact BET isotherm (the library derives its
     # area itself); the sample is the reference itself, or s * alpha + i
-    p04 = Fraction(2, 5)
-    scen = []
-    i = 0
-    for nm, c, sg in itertools.product(NM[1:], (9, 100, 400), SIG):
-        i += 1
-        if not keep(i):
-            continue
-        adsname, props = ADS[sg]
-        base = {"nm": renc(nm), "c": c, "sigma": renc(sg), "pr": renc(p04)}
-        scen.append(dict(base, k="gen", m="self", ps=[renc(x) for x in refgrid]))
-        s, ic = SL[i % len(SL)], IC[(i // 2) % len(IC)]
-        mm, rho = (props["molar_mass"], props["liquid_density"]) if props else (Fraction(1), Fraction(1))
-        scen.append(dict(base, k="gen", m="asiso", s=renc(s), i=renc(ic), mm=renc(mm), rho=renc(rho), ps=[renc(x) for x in refgrid]))
-    gens = tlc.oracle("LinearisedOracle", scen, timeout=300) if scen else []
+    scen, gens = scen_iso, gens_iso
     ref = None
     for q, a in zip(scen, gens):
         q0 = {k: v for k, v in q.items() if k not in ("ps", "k")}
@@ -551,6 +549,25 @@ def recovery(run, rng, thorough, seed):
                 if props or q["m"] == "self":
                     obs["adsorbed_volume"] = r["adsorbed_volume"]
                 rec.add("alpha_s", cfg, q0, obs, scales)
+        if q["m"] == "asiso":
+            # the same sample with the reference area given as a number: area = A_ref / n_ref(0.4) * s
+            c = q["c"]
+            n04 = 1000 * frac(q["nm"]) * Fraction(c) * p04 / ((1 - p04) * (1 - p04 + c * p04))
+            aref = Fraction(2469, 10)
+            if max(n04.numerator, n04.denominator) <= 40000:
+                q1 = {"m": "as", "s": q["s"], "i": q["i"], "aref": renc(aref), "apt": renc(n04), "mm": q["mm"], "rho": q["rho"]}
+                try:
+                    d = alpha_s(sample, ref, reference_area=float(aref), reducing_pressure=0.4, t_limits=(0.0, 1e9))
+                except Exception as e:  # noqa: BLE001
+                    run.violation({"site": "alpha_s", "part": "recovery", "config": "numeric reference area", "wrong": "exception:" + exc_class(e)},
+                                  {"query": q1, "message": str(e)[:200],
+                                   "repro": "alpha_s(iso, ref_iso, reference_area=246.9) -> AttributeError: 'float' object has no attribute 'lower'"})
+                else:
+                    for r in d["results"]:
+                        obs = dict(slope=r["slope"], intercept=r["intercept"], area=r["area"])
+                        if props:
+                            obs["adsorbed_volume"] = r["adsorbed_volume"]
+                        rec.add("alpha_s", "numeric reference area", q1, obs, scales)
 
     _t("  alphas")
     # ---------------- DR / DA: data from the library's own model classes
@@ -605,3 +622,32 @@ def recovery(run, rng, thorough, seed):
     rec.finish()
     _t("  judge")
     run.add("recovery_not_judged_refused_or_no_section", rec.not_judged)
+
+
+def replay(path):
+    """./check C14 --replay replays/C14-....json : re-execute a recorded window/section case on the current
+    tree and let the specification judge it again (other records are printed)."""
+    import json
+    import numpy
+    quiet_pygaps()
+    numpy.seterr(all="ignore")
+    with open(path) as f:
+        d = json.load(f)
+    print("signature:", json.dumps(d["sig"], sort_keys=True))
+    rec = (d.get("detail") or {}).get("record")
+    if not rec or rec.get("k") != "win" or d["sig"].get("part") != "raw":
+        print(json.dumps(d.get("detail"), indent=1)[:4000])
+        print("(recorded case printed; run ./check C14 to re-evaluate it on the current tree)")
+        return 0
+    site, fn, pick = window_sites()[rec["m"]]
+    if rec["r"]:
+        p = numpy.array([k / 100.0 for k in rec["g"]])
+        n = numpy.array(rec["r"], dtype=float) / (1 - p)
+    else:
+        p = numpy.array([k / SCALE for k in rec["g"]])
+        n = generic_loading(p)
+    lim = None if rec["lo"] == AUTO else (_lim(rec["lo"]), _lim(rec["hi"]))
+    obs, cls, _ = outcome(lambda: fn(p, n, lim), pick)
+    a = tlc.oracle("SelectionOracle", [dict(rec, obs=obs)])[0]
+    print(f"{site}(pressure={p.tolist()}, limits={lim}) -> {obs} {cls or ''}; allowed by the specification: {a['allowed']}")
+    return 0 if a["ok"] else 1
